@@ -207,10 +207,10 @@ CHECKS = {
  "C18": dict(
    text="Coq theorems: version equality is an equivalence, equals key equality (the hashed value), and equal versions are interchangeable "
         "as constraints and as probes; == on string-constraint clauses is an equivalence implying the same hashed pair and admitted "
-        "values. Ranges, unions, markers, dependencies and specifications: all pairs and triples of spelling pools are checked on the "
+        "values; == between version constraints (Version, VersionRange, VersionUnion) is an equivalence on constraints with well-formed, proper members and equal constraints admit the same versions, for every candidate (the model's relation is compared with the implementation's == on every pair of the constraint pools). Ranges, unions, markers, dependencies and specifications: all pairs and triples of spelling pools are checked on the "
         "implementation (reflexive, symmetric, transitive, hash, interchangeable, re-parse).",
    design="8/C18",
-   note=BASE_NOTE + "Partial: hash mixing unmodelled; compound types judged by the oracle.",
+   note=BASE_NOTE + "Partial: hash mixing unmodelled; markers, dependencies and specifications judged by the oracle.",
    technique="Coq proof (equivalence, key = hash input, interchangeability) + exhaustive pair/triple oracle on pools"),
  "C19": dict(
    text="Coq theorems: an accepted version is well-formed; one clause of a version constraint can fail only with ParseConstraintError / "
